@@ -236,6 +236,10 @@ func (d *Demuxer) parse() error {
 		return ErrTruncated
 	}
 	totalSize := int(totalSize64)
+	if totalSize < container.RIFFHeaderSize {
+		// RIFF size field below 4: the declared form ends inside its own header.
+		return ErrTruncated
+	}
 	payload := d.data[container.RIFFHeaderSize:totalSize]
 
 	// Parse the first chunk to determine format.
